@@ -18,7 +18,7 @@ import (
 // E4: explicit-state search on the real exported matcher API linked from the
 // repository (pkg/option), against the Go standard library as reference.
 
-var c19Sigma = []string{"a", "A", "b", ".", "_", "1", "é", "É", "ſ", "K"}
+var c19Sigma = []string{"a", "A", "s", ".", "k", "1", "é", "É", "\u017f", "\u212a"} // long s (U+017F) folds with s/S, Kelvin sign (U+212A) with k/K: fold partners of different UTF-8 length
 
 var c19Atoms = []string{"a", "A", ".", `\.`, `\w`, `\W`, `\d`, `\D`, `\s`, `\S`, `\b`, `\B`, "[A-Z]", "[^a-z]", "^", "$", "|", "a*", "(A|b)", "(?i)", "(?-i:A)", `\pL`, `\p{Lu}`, `\PL`, `\x41`, `\QA.b\E`, "A{2}", "é", "[[:upper:]]", `\p{Greek}`, "k"}
 
